@@ -439,9 +439,9 @@ func (e *Engine) findIndicesAdaptiveAtWithState(haystack []byte, at int, state *
 		if endPos != -1 {
 			// Use estimated start for O(m) search
 			estimatedStart := at
-			if endPos > at+100 {
-				estimatedStart = endPos - 100
-			}
+			// The match may be longer than any fixed window: the leftmost match can
+			// start anywhere from the search offset, so search from there (a window
+			// of 100 bytes before the match end reported a late start for longer matches).
 			return state.pikevm.SearchAt(haystack, estimatedStart)
 		}
 		size, capacity, _, _, _ := e.dfa.CacheStats(state.dfaCache)
@@ -497,9 +497,9 @@ func (e *Engine) findIndicesAdaptive(haystack []byte) (int, int, bool) {
 			e.putSearchState(state)
 			// Use estimated start position for O(m) search instead of O(n)
 			estimatedStart := 0
-			if endPos > 100 {
-				estimatedStart = endPos - 100
-			}
+			// The match may be longer than any fixed window: the leftmost match can
+			// start anywhere from the search offset, so search from there (a window
+			// of 100 bytes before the match end reported a late start for longer matches).
 			return e.pikeSearchAt(haystack, estimatedStart)
 		}
 		size, capacity, _, _, _ := e.dfa.CacheStats(state.dfaCache)
@@ -543,9 +543,9 @@ func (e *Engine) findIndicesAdaptiveAt(haystack []byte, at int) (int, int, bool)
 			e.putSearchState(state)
 			// Use estimated start for O(m) search
 			estimatedStart := at
-			if endPos > at+100 {
-				estimatedStart = endPos - 100
-			}
+			// The match may be longer than any fixed window: the leftmost match can
+			// start anywhere from the search offset, so search from there (a window
+			// of 100 bytes before the match end reported a late start for longer matches).
 			return e.pikeSearchAt(haystack, estimatedStart)
 		}
 		size, capacity, _, _, _ := e.dfa.CacheStats(state.dfaCache)
